@@ -104,10 +104,14 @@ def run(tier: str, seed: int) -> int:
                                        kind0="ready", **R)),
     ]
     if tier == "thorough":
-        R2 = dict(dtset=(2, 4, 6), durset=(0, 3, 4, 6, 8, 12), esizes=(1, 2, 3))
+        R2 = dict(dtset=(2, 4, 6), durset=(0, 3, 4, 6, 8, 12), esizes=(1,))
+        R3 = dict(dtset=(2, 4), durset=(0, 3, 4, 8), esizes=(1, 2, 3))
         mc += [
-            ("ready-E1-big", mc_constants(dt=4, dur=8, E0=1, vals={0, 2, 4}, pdty={"f"}, kinds=KINDS, kind0="ready", **R2)),
-            ("uninit-E2", mc_constants(dt=2, dur=6, E0=2, vals={0, 2}, pdty={"f"}, kinds=KINDS, kind0="uninit", **R2)),
+            ("ready-E1-big", mc_constants(dt=4, dur=8, E0=1, vals={0, 2}, pdty={"f"}, kinds={"push", "resize", "life"},
+                                          kind0="ready", **R2)),
+            ("ready-E1-v3", mc_constants(dt=4, dur=8, E0=1, vals={0, 2, 4}, pdty={"f"}, kinds={"push", "resize"},
+                                         kind0="ready", dtset=(2, 4, 6), durset=(0, 4, 8, 12), esizes=(1,))),
+            ("uninit-E2", mc_constants(dt=2, dur=4, E0=2, vals={0, 2}, pdty={"f"}, kinds=KINDS, kind0="uninit", **R3)),
         ]
     run_mc_configs(chk, mc, invariants=["TypeOK", "Refinement", "SettersTotal"])
 
